@@ -73,6 +73,17 @@ func init() {
 				Run: func(w *fw.W) { w.Trie(h1, 0, w.Pick(5, 6)) }, Eval: evalC15},
 			{Name: "trie-fragments-minus", Space: fmt.Sprintf("fragment alphabet of %d symbols ^<=4 quick / <=5 thorough", len(c15Frag)), Share: 3,
 				Run: func(w *fw.W) { w.Trie(c15Frag, 1, w.Pick(4, 5)) }, Eval: evalC15},
+			{Name: "long-repetitions", Space: "unit^k to 200 000 bytes for every unit over (H1 minus '<','=')^<=2 x tails {back-tick, xml, [if, import, entity, javascript:}: token caps / size-dependent paths", Share: 2,
+				Run: func(w *fw.W) {
+					units := alpha.Units(h1, 2)
+					tails := []string{"`", " xml ", " [if ", " import ", " entity", " javascript:"}
+					w.Each(len(units), func(i int) {
+						body := alpha.Rep("", units[i], "", 200000)
+						for _, t := range tails {
+							w.Item(body+t, "")
+						}
+					})
+				}, Eval: evalC15},
 			{Name: "corpus-cuts-stripped", Space: "all fixture cuts with '<' and '=' deleted", Share: 1,
 				Run: func(w *fw.W) { w.Each(len(cuts), func(i int) { w.Item(cuts[i], "") }) }, Eval: evalC15},
 		},
